@@ -578,11 +578,56 @@ pub fn c15_supported_case(rng: &mut Rng, _i: u64, st: &mut Stats) -> CaseOutcome
         st.count("supported_with_unicode_class");
         only_always_supported = false;
     }
-    if !print_parse_roundtrip_ok(&re) {
+    // deep nesting: groups, repetitions of groups, alternations and bracketed classes inside each
+    // other, 10 to 100 levels (the parser's own limit is 250 levels, far above): "groups,
+    // alternation, concatenation and greedy repetitions always build"
+    let mut deep_text: Option<String> = None;
+    if rng.chance(1, 8) {
+        let budget = *rng.pick(&[12usize, 21, 25, 33, 40, 64, 65, 100, 129, 200]);
+        let mut cost = 0usize;
+        let mut levels = 0usize;
+        if rng.chance(1, 4) {
+            // nested bracketed classes [a[b[c...]]]
+            let d = budget.min(120);
+            let mut t = String::new();
+            for k in 0..d {
+                t.push('[');
+                t.push((b'a' + (k % 5) as u8) as char);
+            }
+            for _ in 0..d {
+                t.push(']');
+            }
+            levels = d;
+            deep_text = Some(t);
+        } else {
+            let mut x = Re::Lit('a', LitStyle::Verbatim);
+            while cost < budget {
+                let (wrapped, c) = match rng.below(5) {
+                    0 => (Re::Group(GroupKind::Capture, Box::new(x)), 1),
+                    1 => (Re::Group(GroupKind::NonCapture, Box::new(x)), 1),
+                    2 => (Re::Plus(Box::new(Re::Group(GroupKind::NonCapture, Box::new(x)))), 2),
+                    3 => (Re::Group(GroupKind::NonCapture, Box::new(Re::Alt(vec![x, Re::Lit('b', LitStyle::Verbatim)]))), 2),
+                    _ => (Re::Opt(Box::new(Re::Group(GroupKind::Capture, Box::new(x)))), 2),
+                };
+                x = wrapped;
+                cost += c;
+                levels += 1;
+            }
+            re = x;
+        }
+        st.count("supported_deeply_nested");
+        if levels > 20 {
+            st.count("supported_nested_deeper_than_20");
+        }
+        if cost > 100 || levels > 100 {
+            st.count("supported_nested_deeper_than_100_parser_levels");
+        }
+    }
+    if deep_text.is_none() && !print_parse_roundtrip_ok(&re) {
         st.count("harness_guard_print_parse_mismatch");
         return CaseOutcome::Skipped;
     }
-    let text = re.to_syntax();
+    let text = deep_text.unwrap_or_else(|| re.to_syntax());
     let modes = place(rng, &text, st);
     let case = json!({"kind": "c15", "pattern_text": text, "modes": modes});
     st.count("supported_builds");
